@@ -495,6 +495,21 @@ impl<A: ArenaX> Inst<A> {
           Some(Err(e)) => json!({"k": "err_io", "kind": format!("{:?}", e.kind())}),
         }
       }
+      // the unsafe accessors that hand out mutable access: documented to panic on a read-only arena (the pointer / slice is
+      // never used). Outside "the safe API" of C09: logged for the implementation-level model only.
+      "rawmut" => {
+        let off = op["off"].as_u64().unwrap_or(40) as usize;
+        let n = op["n"].as_u64().unwrap_or(8) as usize;
+        let w = op["w"].as_str().unwrap_or("bytes");
+        let r = catch_unwind(AssertUnwindSafe(|| unsafe {
+          match w {
+            "bytes" => a.get_bytes_mut(off, n).len(),
+            "ptr" => a.get_pointer_mut(off) as usize,
+            _ => a.get_aligned_pointer_mut::<u64>(off).as_ptr() as usize,
+          }
+        }));
+        json!({"k": if r.is_ok() { "ok" } else { "refused" }})
+      }
       "flush" => match a.flush() {
         Ok(()) => json!({"k": "ok"}),
         Err(e) => json!({"k": "err_io", "kind": format!("{:?}", e.kind())}),
